@@ -1,0 +1,49 @@
+//go:build verif
+
+package cpr
+
+import (
+	"os"
+	"runtime"
+	"strconv"
+	"sync/atomic"
+	"time"
+)
+
+// Schedule perturbation for verification builds (tag "verif"). With
+// KNUT_VERIF_SCHED unset or 0 it is inert. Otherwise every Push/Pop draws,
+// from a hash of (seed, call counter), one of: nothing, 1-4 runtime.Gosched
+// calls, or a sleep of 1-80 microseconds. It does not control the schedule,
+// it only shakes it, so that file arrival order and stage overlap vary.
+var (
+	verifSeed    = verifSeedFromEnv()
+	verifCounter atomic.Uint64
+)
+
+func verifSeedFromEnv() uint64 {
+	n, _ := strconv.ParseUint(os.Getenv("KNUT_VERIF_SCHED"), 10, 64)
+	return n
+}
+
+func verifMix(x uint64) uint64 {
+	x += 0x9e3779b97f4a7c15
+	x = (x ^ (x >> 30)) * 0xbf58476d1ce4e5b9
+	x = (x ^ (x >> 27)) * 0x94d049bb133111eb
+	return x ^ (x >> 31)
+}
+
+func verifYield() {
+	if verifSeed == 0 {
+		return
+	}
+	h := verifMix(verifSeed ^ verifMix(verifCounter.Add(1)))
+	switch h % 4 {
+	case 0:
+	case 1, 2:
+		for i := uint64(0); i <= (h>>8)%4; i++ {
+			runtime.Gosched()
+		}
+	case 3:
+		time.Sleep(time.Duration(1+(h>>8)%80) * time.Microsecond)
+	}
+}
